@@ -69,7 +69,7 @@ func (e *Eval) instr(fr *Frame, in ssa.Instruction, st *State, cur string) (stri
 			}
 		}
 		e.store(st, p, t, v.T)
-		e.afterStore(fr, st, p, t, cur, in)
+		e.afterStore(fr, st, p, t, cur, in, v.T)
 	case *ssa.UnOp:
 		v := e.val(fr, x.X)
 		switch x.Op {
@@ -81,6 +81,24 @@ func (e *Eval) instr(fr *Frame, in ssa.Instruction, st *State, cur string) (stri
 			r := c.Define(fr.prefix+x.Name(), c.Sort(t), e.load(st, v, t))
 			e.noteVal(t, r)
 			e.guardCheck(fr, st, v, cur, false)
+			if v.A != nil && v.A.Kind == "field" && len(v.A.Path) == 0 {
+				if _, isMap := t.Underlying().(*types.Map); isMap {
+					e.mapFrom[r] = v.A.Comp
+				}
+				if gr := e.ruleFor(v.A.Comp); gr != nil && gr.Kind == "ownfield" {
+					fresh := false
+					for _, a := range e.allocs {
+						if a == v.A.Base {
+							fresh = true
+						}
+					}
+					if !fresh {
+						// I_own: the File of an existing reference is owned by it and not closed
+						e.declOwn()
+						c.Assert(eq(sel(c.Get(st, "$own"), r), "2"))
+					}
+				}
+			}
 			if v.A != nil && v.A.Kind == "field" && len(v.A.Path) == 0 && strings.HasSuffix(v.A.Comp, ".fidRef.file") {
 				e.prov[r] = v.A.Base
 			}
@@ -234,10 +252,12 @@ func (e *Eval) instr(fr *Frame, in ssa.Instruction, st *State, cur string) (stri
 			c.Unsupported("map update with structured value in %s", fr.fn)
 			break
 		}
+		pre := st.Clone()
 		d := c.Get(st, dom)
 		c.Set(st, dom, sto(d, m.T, sto(sel(d, m.T), k.T, "true")))
 		vv := c.Get(st, val)
 		c.Set(st, val, sto(vv, m.T, sto(sel(vv, m.T), k.T, v.T)))
+		e.tableUpdate(st, u, m.T, k.T, v.T, pre)
 		e.afterMapUpdate(fr, st, u, m.T, cur, in)
 	case *ssa.MakeMap:
 		u := x.Type().Underlying().(*types.Map)
@@ -401,6 +421,10 @@ func (e *Eval) mapComps(u *types.Map) (string, string) {
 	case *types.Pointer, *types.Map, *types.Chan:
 		e.c.ptrComps[base+".val"] = "map:" + ks
 	}
+	switch u.Key().Underlying().(type) {
+	case *types.Pointer, *types.Map, *types.Chan:
+		e.c.ptrComps[base+".dom"] = "mapkey"
+	}
 	return base + ".dom", base + ".val"
 }
 
@@ -414,8 +438,80 @@ func (e *Eval) ghostEvent(st *State, kind, obj string) {
 }
 
 // hooks used by ghost instrumentation (filled in by later layers)
-func (e *Eval) afterStore(fr *Frame, st *State, p Val, t types.Type, cur string, in ssa.Instruction) {
+func (e *Eval) afterStore(fr *Frame, st *State, p Val, t types.Type, cur string, in ssa.Instruction, newv string) {
 	e.guardCheck(fr, st, p, cur, true)
+	if p.A == nil || p.A.Kind != "field" || len(p.A.Path) != 0 {
+		return
+	}
+	c := e.c
+	switch r := e.ruleFor(p.A.Comp); {
+	case r == nil:
+	case r.Kind == "refcount":
+		// initialising the counter of an object allocated by this invocation:
+		// the invocation owes that many references
+		e.declOwed()
+		w, _, _ := isInt(p.A.Typ)
+		if lit, ok := bvLitValue(newv, w); ok {
+			o := c.Get(st, "$owed")
+			c.Set(st, "$owed", sto(o, p.A.Base, fmt.Sprintf("(+ %s %d)", sel(o, p.A.Base), lit)))
+		} else {
+			c.Unsupported("store of a non-constant reference count in %s", fr.fn)
+		}
+	case r.Kind == "reflink":
+		// the link takes over one reference the invocation holds on the target
+		e.declOwed()
+		o := c.Get(st, "$owed")
+		c.Set(st, "$owed", ite(eq(newv, "0"), o, sto(o, newv, "(- "+sel(o, newv)+" 1)")))
+	case r.Kind == "ownfield":
+		e.declOwn()
+		o := c.Get(st, "$own")
+		e.oblige("own@"+e.site("store:"+r.Type+"."+r.Field)+"/stores-only-owned-file", "ownership", r.Props, cur,
+			or(eq(newv, "(mk-iface 0 0)"), eq(sel(o, newv), "1")), "a File stored into "+r.Type+"."+r.Field+" must be one this invocation obtained from the backend and still owns (no sharing between references)", r.Where)
+		c.Set(st, "$own", ite(eq(newv, "(mk-iface 0 0)"), o, sto(o, newv, "2")))
+	}
+}
+
+func bvLitValue(t string, w int) (int64, bool) {
+	if strings.HasPrefix(t, "#x") {
+		var v uint64
+		if _, err := fmt.Sscanf(t[2:], "%x", &v); err == nil {
+			if w < 64 && v&(1<<uint(w-1)) != 0 {
+				return int64(v) - (1 << uint(w)), true
+			}
+			return int64(v), true
+		}
+	}
+	return 0, false
+}
+
+func (e *Eval) declOwed() { e.c.DeclComp("$owed", "(Array Int Int)") }
+func (e *Eval) declOwn()  { e.c.DeclComp("$own", "(Array Iface Int)") }
+
+func (e *Eval) ruleFor(comp string) *GhostRule {
+	for _, r := range e.p.cs.GhostRules {
+		pkg := e.p.pkgs[r.Pkg]
+		if pkg == nil {
+			continue
+		}
+		o := pkg.Pkg.Scope().Lookup(r.Type)
+		if o == nil {
+			continue
+		}
+		if idx := fieldIndex(o.Type(), r.Field); idx >= 0 && fieldComp(o.Type(), idx) == comp {
+			return r
+		}
+	}
+	return nil
+}
+
+// tableRule: the reftable rule for a map loaded from field comp, if any.
+func (e *Eval) mapProvenance(term string) *GhostRule {
+	if comp, ok := e.mapFrom[term]; ok {
+		if r := e.ruleFor(comp); r != nil && r.Kind == "reftable" {
+			return r
+		}
+	}
+	return nil
 }
 
 // guardCheck: guarded-by classification of shared fields (C07/C16). Accesses
@@ -461,6 +557,27 @@ func (e *Eval) guardCheck(fr *Frame, st *State, p Val, cur string, write bool) {
 	}
 }
 func (e *Eval) afterMapUpdate(fr *Frame, st *State, u *types.Map, m string, cur string, in ssa.Instruction) {}
+
+// tableUpdate: entries of a reference table hold one reference each. The
+// invocation takes over the reference of a replaced / deleted entry and hands
+// one of its own to a new entry.
+func (e *Eval) tableUpdate(st *State, u *types.Map, m, k, newv string, pre *State) {
+	if e.mapProvenance(m) == nil {
+		return
+	}
+	c := e.c
+	e.declOwed()
+	dom, val := e.mapComps(u)
+	had := sel(sel(c.Get(pre, dom), m), k)
+	oldv := sel(sel(c.Get(pre, val), m), k)
+	o := c.Get(st, "$owed")
+	o = ite(and(had, not(eq(oldv, "0"))), sto(o, oldv, "(+ "+sel(o, oldv)+" 1)"), o)
+	o = c.Define("$owed", "(Array Int Int)", o)
+	if newv != "" {
+		o = ite(eq(newv, "0"), o, sto(o, newv, "(- "+sel(o, newv)+" 1)"))
+	}
+	c.Set(st, "$owed", o)
+}
 func (e *Eval) allocOb(fr *Frame, in ssa.Instruction, cur, n string, elem types.Type)              {}
 
 func (e *Eval) implPred(iface types.Type, tag string) string {
